@@ -1,6 +1,7 @@
 import PhyVerif.Model.C09
 import PhyVerif.Model.C09b
 import PhyVerif.Model.C12
+import PhyVerif.Model.C08
 /-!
 Model of the value side of the ALF export (property C14), phylib/io/alf.py:
 `make_channel_objects` (per-probe raw channel indices), `make_template_and_spikes_objects` (nearest
@@ -87,5 +88,56 @@ def exportAmpFiles (dT dC : Data) (f : Rat) (indsT indsC : List (List Nat)) : Am
 `waveformDurations`, milliseconds), `waveform_duration[nan_idx] = nan` -/
 def exportPeakToTrough (wfsC : List Mat) (rate : Rat) (nanIdx : List Nat) : List (Option Rat) :=
   (waveformDurations wfsC rate).zipIdx.map fun p => if nanIdx.contains p.2 then none else some p.1
+
+/-! ### which ids are blanked
+
+The property says of the cluster DEPTHS "NaN for ids without spikes".  `make_depths` blanks
+`np.setdiff1d(np.arange(n_clusters), cluster_ids)` with `cluster_ids = _unique(spike_clusters)`: the ids without
+spikes, computed from the spike assignment, curated or not.  (Before that repair it blanked `model.nan_idx`, which
+model.py:425 leaves EMPTY when nothing was curated: the depth of a template without spikes was a number.)
+The DURATIONS (`make_cluster_objects`) are blanked on `model.nan_idx` — NaN for the ids without spikes of a CURATED
+dataset (their cluster waveform is all zero, C08), while for an un-curated dataset a template without spikes keeps
+the peak-to-trough time of its own waveform (upstream `test_alf.py::test_creator` pins five durations for five
+templates the first of which has no spike; the statement attaches no NaN clause to durations). -/
+
+/-- ids below `n` that no spike is assigned to -/
+def spikelessIds (n : Nat) (sc : List Nat) : List Nat := (List.range n).filter fun c => !sc.contains c
+
+/-- `clusters.depths` as written by `make_depths` (alf.py:216-231): `peaks` = the `clusters.channels` table read back
+from the output directory, `sc` = `model.spike_clusters` -/
+def exportClusterDepths (ys : List Rat) (peaks sc : List Nat) : List (Option Rat) :=
+  clusterDepths ys peaks (spikelessIds peaks.length sc)
+
+/-- `model.nan_idx` for dense templates (model.py:418-428): `get_merge_map()[1]` (the C08 model) when anything was
+curated, `[]` otherwise -/
+def modelNanIdx (st sc : List Nat) : List Nat :=
+  if sc = st then [] else C08.nanIdx (C08.mergeMap st sc)
+
+/-- `clusters.peakToTrough` as written by `make_cluster_objects` (alf.py:184-190): `st`/`sc` =
+`model.spike_templates` / `model.spike_clusters` -/
+def exportDurations (wfsC : List Mat) (rate : Rat) (st sc : List Nat) : List (Option Rat) :=
+  exportPeakToTrough wfsC rate (modelNanIdx st sc)
+
+/-- what `get_depths` reads of the feature store: `sparse_features.data[:, :, 0]` (one row per STORED spike) and
+`sparse_features.cols` (one row per template) -/
+structure Feats where
+  feat0 : List (List Rat)
+  cols : List (List Nat)
+deriving Repr
+
+/-- `TemplateModel.get_depths()` (model.py:1098-1122): `None` without features and when the features are stored
+for a subset of the spikes (`data.shape[0] != n_spikes`, the `pc_feature_spike_ids.npy` layout); otherwise the C09
+feature-weighted depths -/
+def getDepths (fe : Option Feats) (ys : List Rat) (st : List Nat) : Option (List (Option Rat)) :=
+  match fe with
+  | none => none
+  | some f => if f.feat0.length = st.length then some (depths f.feat0 f.cols ys st) else none
+
+/-- `spikes.depths` as written by `make_depths` (alf.py:233-239): the feature-weighted depths when `get_depths()`
+gives them, otherwise the depth of the spike's cluster -/
+def exportSpikeDepths (fe : Option Feats) (ys : List Rat) (peaks st sc : List Nat) : List (Option Rat) :=
+  match getDepths fe ys st with
+  | some d => d
+  | none => spikeDepthsFromClusters (exportClusterDepths ys peaks sc) sc
 
 end PhyVerif.C14
